@@ -138,8 +138,24 @@ size_t RequestParser::parse(const void *data_ptr, size_t data_size)
             auto head_value = util::string::Strip(str.substr(head_value_start_pos, head_value_end_pos - head_value_start_pos));
             sp_request_->headers[head_key] = head_value;
 
-            if (head_key == "Content-Length")
-                content_length_ = std::stoi(head_value);
+            if (head_key == "Content-Length") {
+                //! 不能用 std::stoi()，它在遇到非数字或超大数值时会抛异常
+                size_t length = 0;
+                bool is_valid = !head_value.empty();
+                for (char c : head_value) {
+                    if (c < '0' || c > '9' || length > (std::numeric_limits<size_t>::max() - 9) / 10) {
+                        is_valid = false;
+                        break;
+                    }
+                    length = length * 10 + (c - '0');
+                }
+
+                if (!is_valid) {
+                    state_ = State::kFail;
+                    return pos;
+                }
+                content_length_ = length;
+            }
 
             pos = end_pos + 2;
         }
